@@ -111,6 +111,7 @@ theorem model_stepOK {s : State} (hs : HInv s) (op : Op) :
       cases lop with
       | addF ts u d => intro hok; exact addF_creates hs g ts u d (by simpa using hok) b hb a ha
       | addS d chg => intro hok; exact addS_creates hs g d chg (by simpa using hok) b hb a ha
+      | addFs tss => intro hok; exact addFs_creates_heap hs g tss (by simpa using hok) b hb a ha
       | _ => trivial
     | allS g n =>
       intro hok b hb a ha
